@@ -328,12 +328,12 @@ def wide_partition_mapping(rng, es, shape_p=0.3, flatten_p=0.5, second_flatten_p
     return m, syms, feats
 
 
-def wide_items(rng, n, rename_p=0.6, max_ranks=4):
-    """population items (see popgen.py): product Einsums x wide_partition_mapping x optional renaming"""
+def wide_items(rng, n, rename_p=0.6, max_ranks=4, **kw):
+    """population items (see popgen.py): product Einsums x wide_partition_mapping(**kw) x optional renaming"""
     k = 0
     while k < n:
         es = gen_product_einsum(rng, max_ranks=max_ranks)
-        mp, syms, feats = wide_partition_mapping(rng, es)
+        mp, syms, feats = wide_partition_mapping(rng, es, **kw)
         if mp is None:
             continue
         k += 1
